@@ -11,6 +11,6 @@ def nf5Line (addr dg : Bytes) : String :=
   | .ok m =>
     "msg " ++ joinNat m.hdr ++ " err=" ++ (match m.err with | none => "-" | some e => e.name) ++
     " flows=" ++ "".intercalate (m.flows.map fun f => "[" ++ joinNat f ++ "]") ++
-    " json=" ++ (let j := V5.marshal (ipString addr) m; if j.isEmpty then "-" else hex j)
+    " json=" ++ (let j := V5.marshal (ipBytes addr) m; if j.isEmpty then "-" else hex j)
 
 end Driver
